@@ -66,9 +66,17 @@ def main():
                 for dist_exp in (None, -40, -20):
                     for _ in range(2 if not thorough else 8):
                         dim = rnd.choice([1, 2, 3])
-                        base = G.int_net(rnd, dim, base_n + 1, 32)
-                        # make sure the base is genuinely of its degree: perturb the last node
-                        base = [[x + Fr(rnd.randint(1, 9), 1) * (j == len(r) - 1) * (j % 2 + 1) for j, x in enumerate(r)] for r in base]
+                        def top_difference(r):
+                            from math import comb
+                            m = len(r) - 1
+                            return sum((-1) ** (m - j) * comb(m, j) * r[j] for j in range(m + 1))
+                        while True:
+                            base = G.int_net(rnd, dim, base_n + 1, 32)
+                            # the base must be genuinely of its degree: some coordinate has a non-zero top forward difference
+                            # (and clearly so: the reduction test is relative, 2^-4 of the size is far from its threshold)
+                            size = max(abs(x) for r in base for x in r) or 1
+                            if any(abs(top_difference(r)) * 16 >= size for r in base):
+                                break
                         # the decision is relative: it must not depend on the overall scale of the net
                         sc = Fr(2) ** rnd.choice([0, 0, -12, -20, 12, 30])
                         base = [[x * sc for x in r] for r in base]
